@@ -421,6 +421,10 @@ class TrTimer:
             if vc is not None:
                 body = self.block(rest, {**env, name: (var, vc[1])}) or 'skip'
                 return f'call (fun sl => {vc[0]}) (fun {var} =>\n{self.ind(body)})'
+            if isinstance(s.value, ast.IfExp):
+                val, ty = self.ite_value(s.value.test, s.value.body, s.value.orelse, env)
+                body = self.block(rest, {**env, name: (var, ty)}) or 'skip'
+                return f'bindv (fun sl => ({val} : {LEAN_T[ty]})) (fun {var} =>\n{self.ind(body)})'
             t, ty = self.expr(s.value, env)
             if ty == 'None' or ty.startswith('T:'):
                 raise U(f'{name} = {ast.unparse(s.value)[:40]}')
@@ -472,11 +476,12 @@ class TrTimer:
         if (isinstance(s, ast.If) and isinstance(s.test, ast.Compare) and len(s.test.ops) == 1
                 and isinstance(s.test.ops[0], (ast.Is, ast.IsNot)) and isinstance(s.test.left, ast.Name)
                 and isinstance(s.test.comparators[0], ast.Constant) and s.test.comparators[0].value is None
-                and env.get(s.test.left.id, (None, None))[1] == 'OT'):
+                and env.get(s.test.left.id, (None, None))[1] in ('OT', 'OH')):
             neg = isinstance(s.test.ops[0], ast.IsNot)
             o = env[s.test.left.id][0]
             var = self.fresh('t')
-            some_ = self.nested(s.body if neg else s.orelse, {**env, s.test.left.id: (var, 'T')})
+            inner = 'T' if env[s.test.left.id][1] == 'OT' else 'H'
+            some_ = self.nested(s.body if neg else s.orelse, {**env, s.test.left.id: (var, inner)})
             none_ = self.nested(s.orelse if neg else s.body, env)
             first = (f'matchOpt (fun sl => {o})\n{self.ind("(" + none_ + ")")}\n  (fun {var} =>\n'
                      f'{self.ind(some_, 2)})')
@@ -768,14 +773,16 @@ def translate_init_duration(fn):
             v = st.targets[0].id
             return (f'{pad}match timePeriod value with\n{pad}| .error e => .error e\n{pad}| .ok {v} =>\n'
                     + stmts(rest, env | {v}, ind + 1))
-        if (isinstance(st, ast.If) and not st.orelse and isinstance(st.test, ast.Compare) and len(st.test.ops) == 1
+        if isinstance(st, ast.Pass):
+            return stmts(rest, env, ind)
+        if (isinstance(st, ast.If) and isinstance(st.test, ast.Compare) and len(st.test.ops) == 1
                 and isinstance(st.test.left, ast.Name) and st.test.left.id in env
                 and isinstance(st.test.comparators[0], ast.Constant) and st.test.comparators[0].value is None
                 and isinstance(st.test.ops[0], (ast.Is, ast.IsNot))):
             v = st.test.left.id
             c = f'!(durIsNone {v})' if isinstance(st.test.ops[0], ast.IsNot) else f'durIsNone {v}'
             inner = stmts(list(st.body) + rest, env, ind + 1)
-            return f'{pad}if {c} then\n{inner}\n{pad}else\n' + stmts(rest, env, ind + 1)
+            return f'{pad}if {c} then\n{inner}\n{pad}else\n' + stmts(list(st.orelse) + rest, env, ind + 1)
         if (isinstance(st, ast.Assign) and len(st.targets) == 1
                 and ast.unparse(st.targets[0]) == f'self._duration[{ts}]'):
             if isinstance(st.value, ast.Name) and st.value.id in env:
